@@ -86,6 +86,11 @@ func (s *Applier) applyCreateOperation(anchoredOp *operation.AnchoredOperation,
 		return nil, fmt.Errorf("failed to parse create operation in batch mode: %s", err.Error())
 	}
 
+	if anchoredOp.UniqueSuffix != "" && anchoredOp.UniqueSuffix != op.UniqueSuffix {
+		// the suffix of a DID is the hash of its create operation's suffix data
+		return nil, fmt.Errorf("create operation of suffix[%s] cannot create suffix[%s]", op.UniqueSuffix, anchoredOp.UniqueSuffix)
+	}
+
 	// from this point any error should advance recovery commitment
 	result := &protocol.ResolutionModel{
 		Doc:                            make(document.Document),
